@@ -439,8 +439,10 @@ def pack_into_passes(nng, arch, verbose_packing=False):
                     return False
 
             # An activation function cannot be fused onto an operation that already has one, nor onto another
-            # activation operator: the later one would replace it
-            if curr_op.type in activation_ops and (next_op.activation is not None or next_op.type in activation_ops):
+            # activation operator: the later one would replace it. Nor onto a copy, which is done by DMA
+            if curr_op.type in activation_ops and (
+                next_op.activation is not None or next_op.type in activation_ops or next_op.type == Op.Memcpy
+            ):
                 return False
             # There cannot be any reshaping between next_op ofm and corresponding curr_op ifm
             if len(curr_op.ifm_shapes) != 0 and len(next_op.ofm_shapes) != 0:
